@@ -1,6 +1,7 @@
 #!/bin/bash
 # try_seeded.sh <patch.diff> <Cxx> [Cxx...]   — apply a seeded change to /repo, run the checks, undo it straight afterwards
 p=$1; shift
+export VERIF_SCRATCH=1
 git -C /repo apply "$p" || exit 2
 trap 'git -C /repo checkout -- . ; git -C /repo status --short; /verif/.work/factx-bin /repo /verif/lean/Dirk/Gen/Facts.lean' EXIT
 for c in "$@"; do
